@@ -16,12 +16,16 @@ const (
 	// Reader blocksizes
 	maxTagValueSize  = 512
 	maxTagHeaderSize = 128
+
+	// maxTagDepth limits the nesting of tags
+	maxTagDepth = 256
 )
 
 var (
 	// Reader errors
 	ErrNoValue      = errors.New("error property has no value")
 	ErrNegativeRead = errors.New("error negative read")
+	ErrTagDepth     = errors.New("error tags nested too deeply")
 	ErrBufferFull   = bufio.ErrBufferFull
 
 	// xmpRootTag starts with "<x:xmpmeta" and ends with "</x:xmpmeta>"
@@ -30,8 +34,9 @@ var (
 )
 
 type xmpReader struct {
-	r *bufio.Reader
-	a bool
+	r     *bufio.Reader
+	a     bool
+	depth int
 }
 
 func newXMPReader(r io.Reader) xmpReader {
@@ -251,6 +256,11 @@ func (br *xmpReader) readTagValue() (buf []byte, err error) {
 }
 
 func (br *xmpReader) readTag(xmp *XMP, parent Tag) (tag Tag, err error) {
+	if br.depth >= maxTagDepth {
+		return tag, ErrTagDepth
+	}
+	br.depth++
+	defer func() { br.depth-- }()
 	for {
 		if tag, err = br.readTagHeader(parent); err != nil {
 			break
